@@ -250,8 +250,8 @@ def captureLiteral {β} (T : Tables) (urlOk : List Nat → Bool) (e : End) (inp 
               if c2 ≠ 0x3c then .err .syntax
               else match captureIRI T urlOk e r2 with
                 | .ok dt r =>
-                  -- an explicit rdf:langString datatype would give a tagged string without a tag
-                  if dt = rdfLangString then .err .syntax else .ok (.lit lex dt none) r
+                  -- an explicit rdf:langString / rdf:dirLangString datatype would give a tagged string without a tag
+                  if dt = rdfLangString ∨ dt = rdfDirLangString then .err .syntax else .ok (.lit lex dt none) r
                 | .err x => .err x
       else .ok (.lit lex xsdString none) (c :: rest')
 
